@@ -841,8 +841,8 @@ theorem C14_write_ok_is_complete (P : WriterPolicy) (esc : Escapers) (env : Env)
          ((serializeXmlWriteW P esc env p t start).2 = .err .io ∧
           ∃ rest, s = (serializeXmlWriteW P esc env p t start).1 ++ rest))) := by
   have hcalls := serializeXmlCalls_eq esc env p t start
-  have hrun := serializeXmlWriteW_eq_runCalls P esc env p t start
-  rcases runCalls_outcome P [] (serializeXmlCalls esc env p t start) with hall | hio
+  have hrun := serializeXmlWriteW_eq_replayCalls P esc env p t start
+  rcases replayCalls_outcome P [] (serializeXmlCalls esc env p t start) with hall | hio
   · -- every call accepted: the never-failing model
     rw [← hrun, List.nil_append, hcalls] at hall
     refine ⟨?_, ?_⟩
@@ -867,7 +867,7 @@ theorem C14_write_ok_is_complete (P : WriterPolicy) (esc : Escapers) (env : Env)
     · intro s hs
       right
       refine ⟨hio, ?_⟩
-      obtain ⟨rest, h⟩ := runCalls_prefix P [] (serializeXmlCalls esc env p t start)
+      obtain ⟨rest, h⟩ := replayCalls_prefix P [] (serializeXmlCalls esc env p t start)
       rw [← hrun, List.nil_append] at h
       have h1 : (serializeXmlCalls esc env p t start).1.flatten = (serializeXmlWriteWith esc env p t start).1 :=
         congrArg Prod.fst hcalls
